@@ -749,6 +749,33 @@ class Read(Contract):
 
 
 @register
+class Iter(Contract):
+    qualname = R + ".__iter__"
+
+    # the reader is its own iterator: iter(r) is r, nothing is read or written - so an iterator obtained once keeps working after
+    # an exception raised by next() (C05 "the same reader keeps working"), and `for` / next() / read() all advance one shared cursor
+    def apply(self, eng, st, selfv, args, kwargs, site):
+        return [(st, selfv)]
+
+    def verify(self, eng, inst):
+        fi = extract.func(self.qualname)
+        st = State()
+        stream = new_stream(st)
+        selfv = new_reader(st, stream)
+        p0 = spos(st, stream)
+        st.writes = set()
+        canary = []
+        for s, out in eng.exec_function(fi, st, {"self": selfv}, contract=self):
+            if isinstance(out, RaiseExc):
+                eng.oblige(f"{self.qualname}.raises_nothing", s, False, kind="exc", note=out.cls.__name__)
+                continue
+            canary.append(s)
+            eng.oblige(f"{self.qualname}.post.returns_the_reader_itself", s, z3.BoolVal(isinstance(out.v, Ref) and out.v == selfv), note=repr(out.v))
+            eng.oblige(f"{self.qualname}.frame.reads_and_writes_nothing", s, z3.And(spos(s, stream) == p0, z3.BoolVal(not s.writes)), kind="frame")
+        return canary
+
+
+@register
 class Next(Contract):
     qualname = R + ".__next__"
 
